@@ -3,7 +3,7 @@
 PROPS = {
     'C04': dict(
         title='Bit-string operations depend only on the bit sequence',
-        verus_units=['bitstr'],
+        verus_units=['bitstr', 'cursor'],
         kani_groups=['codec.rs'],
         design_ref='DESIGN.md section 5 / C04',
         bounded_note='Kani stand-ins for detach / eq_with / to_bytes / bytestr / to_bytes_with_padding / to_hex_string: 3-byte backing '
@@ -20,7 +20,7 @@ PROPS = {
     ),
     'C05': dict(
         title='Number <-> bits codecs are exact inverses and independent of alignment',
-        verus_units=['bitstr'],
+        verus_units=['bitstr', 'cursor'],
         kani_groups=['codec.rs'],
         design_ref='DESIGN.md section 5 / C05',
         technique='Kani/CBMC harness families over concrete (width, offset, byte order) with fully symbolic values and backing bytes, '
@@ -55,7 +55,7 @@ PROPS = {
     ),
     'C14': dict(
         title='Resource limits are hard bounds and hitting one is recoverable',
-        verus_units=['state'],
+        verus_units=['state', 'compile'],
         kani_groups=[],
         frame_scan=True,
         design_ref='DESIGN.md section 5 / C14',
@@ -144,7 +144,7 @@ PROPS = {
     ),
     'C01': dict(
         title='Structured control flow compiles to bytecode that means what the source says',
-        verus_units=['compile', 'state', 'collections', 'build'],
+        verus_units=['compile', 'state', 'collections', 'build', 'cell'],
         kani_groups=['opcodes.rs'],
         design_ref='DESIGN.md section 5 / C01',
         technique='Kani full-domain proof of the jump codec; Verus backpatch contracts on every immediate control word over a pending-flow invariant '
@@ -163,7 +163,7 @@ PROPS = {
     ),
     'C10': dict(
         title='A source that fails to build has no effect on anything submitted afterwards',
-        verus_units=['compile', 'state'],
+        verus_units=['compile', 'state', 'build'],
         kani_groups=[],
         design_ref='DESIGN.md section 5 / C10',
         technique='Verus contracts on build_from_source/build_from_file/build_mark/build_abort/context_open (build0, intern_source assumed)',
@@ -208,7 +208,7 @@ PROPS = {
     ),
     'C13': dict(
         title='Tags never change what a value does',
-        verus_units=['cell', 'arith', 'collections'],
+        verus_units=['cell', 'arith', 'collections', 'cursor', 'compile'],
         kani_groups=[],
         design_ref='DESIGN.md section 5 / C13',
         technique='Verus: every typed accessor of src/cell.rs is specified as a function of strip(cell) (the value without its tag wrapper); every word under contract is specified over strip(arg) only',
@@ -220,7 +220,7 @@ PROPS = {
     ),
     'C12': dict(
         title='Maps, vectors and strings obey collection laws under the language\'s equality',
-        verus_units=['collections', 'cell'],
+        verus_units=['collections', 'cell', 'state', 'compile'],
         kani_groups=['state_idx.rs'],
         design_ref='DESIGN.md section 5 / C12',
         technique='Verus contracts on eq/partial_cmp/cmp of Cell and on relative_index/slicing_index/vector_get/nth/get/push/insert/remove/length against Seq / assumed-map models; '
@@ -236,7 +236,7 @@ PROPS = {
     ),
     'C06': dict(
         title='Parsing cursor: a read returns exactly the requested bits and advances that far',
-        verus_units=['cursor', 'bitstr'],
+        verus_units=['cursor', 'bitstr', 'state', 'cell'],
         kani_groups=[],
         design_ref='DESIGN.md section 5 / C06',
         technique='Verus contracts on the cursor words of src/bitstr_ext.rs over a ghost cursor (input, offset, stash read out of their heap cells), '
@@ -254,7 +254,7 @@ PROPS = {
     ),
     'C07': dict(
         title='Binary construction is the inverse of binary parsing',
-        verus_units=['bitstr', 'cursor'],
+        verus_units=['bitstr', 'cursor', 'state'],
         kani_groups=['codec.rs'],
         design_ref='DESIGN.md section 5 / C07',
         technique='Verus lemma over the contracts of append and read (any lengths, any alignments) + Kani composition family (three fields of concrete widths, symbolic values) + Verus contracts on the pack / append words',
